@@ -40,6 +40,9 @@ import (
 type conc14Comp struct{}
 
 func init()                       { register("conc14", conc14Comp{}) }
+// OpTimeout: single operations of this component are whole runs / scans
+func (conc14Comp) OpTimeout() time.Duration { return 15 * time.Minute }
+
 func (conc14Comp) Parallel() bool { return false }
 
 type conc14Runner struct {
